@@ -34,6 +34,9 @@ FAMILY = "leaky"
 RUNNER = ("Corr.Leaky_run", "run_leaky")
 
 PANIC, ABORT, TIMEOUT = -999999, -999998, -999997
+# the third-party `probability` crate itself panicked or hung (see harness/src/fam_leaky.rs): the
+# case says nothing about constriction; it is dropped from the oracles and the correspondence
+FOREIGN = -999995
 E_NONE, E_PANIC = -1, -5
 
 MENU = [
@@ -141,6 +144,8 @@ def py_nl_rle(cs, fw):
 def model_io(inp, out):
     """-> (model input, expected model output).  Model input = observed build profile and non_leaky
     table ++ case; expected = implementation output without the observed table."""
+    if out == [FOREIGN]:
+        return [], [PANIC]          # run_leaky [] = [PANIC]: trivially equal
     cs = parse_case(inp)
     if len(out) >= 2 and out[0] in (0, 1):
         dbg = out[0]
@@ -181,7 +186,7 @@ def parse_out(inp, out):
     """-> dict(special, dbg, fw, nl, hyp, results=[(op, args, res)], off) ; raises on malformed output."""
     cs = parse_case(inp)
     r = dict(cs=cs, special=None, dbg=None, fw=None, nl=None, hyp=None, results=[], off=None)
-    if len(out) == 1 and out[0] in (PANIC, ABORT, TIMEOUT):
+    if len(out) == 1 and out[0] in (PANIC, ABORT, TIMEOUT, FOREIGN):
         r["special"] = out[0]
         return r
     r["dbg"] = out[0]
@@ -468,8 +473,18 @@ def oracle_all(inp, out):
     return None
 
 
-ORACLES = {"C03": oracle_C03, "C05": oracle_C05, "C09": oracle_C09, "C10": oracle_C10, "C19": oracle_C19,
-           "C03_leaky": oracle_all}
+def _not_foreign(fn):
+    def wrapped(inp, out):
+        if out == [FOREIGN]:
+            return None
+        return fn(inp, out)
+    wrapped.__doc__ = fn.__doc__
+    return wrapped
+
+
+ORACLES = {k: _not_foreign(v) for k, v in
+           {"C03": oracle_C03, "C05": oracle_C05, "C09": oracle_C09, "C10": oracle_C10, "C19": oracle_C19,
+            "C03_leaky": oracle_all}.items()}
 
 
 def nontrivial(inp, out, prop):
@@ -480,7 +495,7 @@ def nontrivial(inp, out, prop):
         r = parse_out(inp, out)
     except (IndexError, ValueError):
         return False
-    if r["special"] is not None:
+    if r["special"] is not None or out == [FOREIGN]:
         return False
     if r["fw"] == E_PANIC:
         return True
@@ -559,13 +574,34 @@ def _pick_support(rng, symb, sgn, pb, P, max_size=None, wide=False):
     return lo, lo + size - 1
 
 
+def _dip1_points(rng, lo, hi, fw):
+    """monotone in units of 1/fw except for a few places where the observed integer drops by EXACTLY
+    one quantum: the slack of one per symbol then makes right == left cumulative, i.e. a zero
+    probability (finding F16: must be a panic, not a zero inside NonZero)"""
+    n = hi - lo
+    base = sorted(rng.randint(0, max(fw, 1)) for _ in range(n))
+    for _ in range(rng.choice([1, 1, 2, 3])):
+        j = rng.randrange(n)
+        if j + 1 < n and base[j] >= 1:
+            base[j + 1] = base[j] - 1
+    return [(lo + 1 + i, min(1.0, (base[i] + 0.5) / fw) if fw > 0 else 0.5) for i in range(n)]
+
+
+def _rle_points(pts):
+    out = []
+    for s, v in pts:
+        if not out or bits(out[-1][1]) != bits(v):
+            out.append((s, v))
+    return out
+
+
 def _cdf_shape(rng, lo, hi, fw, adversarial):
     """-> list of (s, cdf float) breakpoints for s in lo+1..=hi (run-length encoded)."""
     n = hi - lo
     kind = rng.choice(["flat0", "flat1", "flat", "onestep", "onestep", "stairs", "stairs", "smooth", "cut",
                        "dense"])
     if adversarial:
-        kind = rng.choice(["shuffle", "over1", "weird", "dip"])
+        kind = rng.choice(["shuffle", "over1", "weird", "dip", "dip1", "dip1"])
     if n > DENSE_MAX:
         # one breakpoint per symbol is too much volume for the in-Coq model run: few steps only
         kind = rng.choice(["nm_stairs", "over_stairs"]) if adversarial else \
@@ -610,6 +646,8 @@ def _cdf_shape(rng, lo, hi, fw, adversarial):
         j = rng.randrange(n)
         vals[j] = max(0.0, vals[j] - rng.choice([1e-3, 0.1, 0.5]))
         pts = [(lo + 1 + i, vals[i]) for i in range(n)]
+    elif kind == "dip1":
+        pts = _dip1_points(rng, lo, hi, fw)
     elif kind == "over1":
         vals = sorted(rng.uniform(0.0, rng.choice([1.001, 1.5, 3.0, 1e6])) for _ in range(n))
         pts = [(lo + 1 + i, vals[i]) for i in range(n)]
@@ -731,6 +769,17 @@ def gen_step(rng):
     P = rng.choice(plist)
     lo, hi = _pick_support(rng, symb, sgn, pb, P, max_size=rng.choice([16, 300, 4096]))
     return _step_case(rng, symb, sgn, pb, P, lo, hi, adversarial=rng.random() < 0.15, n_listed=rng.choice([10, 40]))
+
+
+def gen_f16(rng):
+    """The F16 shape: small supports whose CDF drops by exactly one quantum somewhere (zero probability
+    for the symbol there); table dump, encoder dump and quantiles around every interval end."""
+    symb, sgn, pb, plist = rng.choice(MENU)
+    P = rng.choice(plist)
+    lo, hi = _pick_support(rng, symb, sgn, pb, P, max_size=rng.choice([8, 16, 64]))
+    fw = py_new(symb, sgn, pb, P, lo, hi)
+    shape = _rle_points(_dip1_points(rng, lo, hi, fw)) if fw is not None and hi > lo else None
+    return _step_case(rng, symb, sgn, pb, P, lo, hi, adversarial=True, n_listed=40, force_shape=shape)
 
 
 def gen_f13(rng):
